@@ -1,12 +1,17 @@
 """C10 - Interrupted or failed regeneration never leaves silently stale build files.
 
 Stages (see run()):
+  variant             which builtins/find.py is under test (harness/regenvariant.py, behavioural probe): F1 = find_check_cache
+                      distrusts a cache newer than the build file, F2 = write_depfile renames a .tmp into place; selects the
+                      model variant (State/Crash.v `variant`) and which finding classes may still count as known
   proofs              coq/props/C10.v (crash model State/Crash.v)
   W:run_ops           the real mutation sequence of configure / regenerate (recorded by harness/inject/sitecustomize.py in
-                      the bfg9000 process) against the model's run_ops on the same abstract project
+                      the bfg9000 process; os.replace / os.rename are mutation points) against the model's run_ops (of the
+                      detected variant) on the same abstract project
   oracle:crash        fault injection at EVERY mutation point of the recorded run (raise / kill, before / after), then one
                       or two real `make` runs; oracle: exit status != 0 or files byte-equal to a fresh configure
-  W:outcome           the same experiments against the model's prediction (crash n ; attempt ; attempt)
+  W:outcome           the same experiments against the model's prediction (crash n ; attempt ; attempt), including the state
+                      of .bfg_find_deps and .bfg_find_deps.tmp right after the fault
   oracle:script_raise a build script (or a rule emission) that raises leaves the previous build file byte-identical
 """
 import concurrent.futures
@@ -18,19 +23,21 @@ import subprocess
 import time
 import traceback
 
-from . import common, project
+from . import common, project, regenvariant
 
 LEVEL = 'proof'
 RULE = ('projects are drawn from the feature grid find_files yes/no x 0..2 pkg_config calls (2 immediate files each) x '
         'install/test rules x compdb on/off x edit kind (new file in a watched directory / build.bfg edited / both) x '
         'how the regeneration is started (make-triggered regenerate --lazy, bfg9000 regenerate, configure-into over the '
-        'existing build directory); for each project EVERY mutation point n of the recorded run is faulted (exhaustive), in '
+        'existing build directory); for each project EVERY mutation point n of the recorded run (incl. the rename of the depfile) is '
+        'faulted (exhaustive), in '
         'the variants kill/raise x before/after; a case = (project, n, variant, follow-up index); non-trivial when the run '
         'was really cut (fault fired) and distinct by (project features, abstract crash state, follow-up index)')
 TRUSTED = ('GNU Make 4.3 as the consumer of the Makefile (real tool, run on every crash state)',
            'harness/inject/sitecustomize.py: the recorder / fault injector (wraps builtins.open for write modes, os.remove, '
-           'os.utime, os.makedirs inside the bfg9000 process); a fault before a close leaves the file empty (torn writes '
-           'inside one write are not modelled)',
+           'os.utime, os.makedirs, os.replace, os.rename inside the bfg9000 process); a fault before a close leaves the file '
+           'empty (torn writes inside one write are not modelled); a rename is one atomic mutation point',
+           'harness/regenvariant.py: the behavioural probe that selects the model variant (old / repaired find.py)',
            'compiler, linker and archiver are replaced by the argv recorder during make runs (the property is about build '
            'files, not about compilation)')
 EXPLANATION = ''
@@ -39,6 +46,8 @@ INJECT = os.path.join(common.VERIF, 'harness', 'inject')
 WINDOW_CLASS = 'crash-between-findcache-save-and-buildfile-write'
 DEPFILE_CLASS = 'crash-while-find-depfile-truncated'
 COMPDB_CLASS = 'crash-after-buildfile-write-before-compdb-complete'
+# the model variant [cal, adeps (F2), dnc (F1)] of State/Crash.v that mirrors the tree under test; set by select_variant()
+VARIANT = [False, False, False]
 
 
 # ----------------------------------------------------------------------------- projects
@@ -252,12 +261,24 @@ class Bench:
         return rc, out, procs, ops, pr, state
 
 
+def aux_state(build):
+    """.bfg_find_deps and its temporary file after the fault: absent | empty | full (their bytes are the same in both
+    generations when only a file was added to a watched directory, so old / new is not distinguished)."""
+    out = {}
+    for name, key in (('.bfg_find_deps', 'deps'), ('.bfg_find_deps.tmp', 'depstmp')):
+        p = os.path.join(build, name)
+        out[key] = 'absent' if not os.path.lexists(p) else ('empty' if os.path.getsize(p) == 0 else 'full')
+    return out
+
+
 def abstract_file(spec, path):
     """Trace path -> model file id."""
     if path == '.bfg_environ':
         return ('env',)
     if path == '.bfg_find_deps':
         return ('deps',)
+    if path == '.bfg_find_deps.tmp':
+        return ('depstmp',)
     if path == '.bfg_find_cache':
         return ('cache',)
     if path in ('Makefile', 'build.ninja'):
@@ -277,7 +298,8 @@ def abstract_file(spec, path):
 
 
 def abstract_ops(spec, ops):
-    return [(o['op'],) + abstract_file(spec, o['path']) for o in ops]
+    return [(o['op'],) + abstract_file(spec, o['path']) + (abstract_file(spec, o['dst']) if 'dst' in o else ())
+            for o in ops]
 
 
 # ----------------------------------------------------------------------------- one worker: a list of fault points
@@ -298,6 +320,7 @@ def run_points(spec, points, followups=2):
                 r['fired'] = any('fault' in o for p in procs for o in p['ops'])
                 r['fault_ops'] = abstract_ops(spec, ops)
                 r['after_fault'] = b.classify()
+                r['after_fault_aux'] = aux_state(b.build)
                 bf = b.watched()[0]
                 r['build_identical'] = b.contents(b.build)[bf] == b.v1[bf]
                 r['attempts'] = []
@@ -394,17 +417,26 @@ def judge(rep, r, aops):
 
 
 # ----------------------------------------------------------------------------- model side
-OPN = {0: 'open', 1: 'close', 2: 'remove', 3: 'utime', 4: 'makedirs'}
+OPN = {0: 'open', 1: 'close', 2: 'remove', 3: 'utime', 4: 'makedirs', 5: 'rename'}
 FILEN = {0: ('env',), 2: ('deps',), 3: ('cache',), 4: ('build',), 5: ('stamp',), 6: ('compdb',), 7: ('builddir',),
-         8: ('immdir',)}
+         8: ('immdir',), 9: ('depstmp',)}
 STATE = {0: 'absent', 1: 'empty', 2: 'old', 3: 'new'}
+AUX = {0: 'absent', 1: 'empty', 2: 'full', 3: 'full'}
 EDITS = {'dir': [False, True, False], 'script': [True, False, False], 'both': [True, True, False],
          'touch': [False, False, True]}
 
 
 def dec_op(r):
-    f = ('imm', r[2]) if r[1] == 1 else FILEN[r[1]]
-    return (OPN[r[0]],) + f
+    """[op, file...] (a rename carries two files; an immediate file is [1, k])"""
+    out, i = (OPN[r[0]],), 1
+    while i < len(r):
+        if r[i] == 1:
+            out += ('imm', r[i + 1])
+            i += 2
+        else:
+            out += FILEN[r[i]]
+            i += 1
+    return out
 
 
 def m_proj(spec):
@@ -433,15 +465,16 @@ def canon_state(spec, same, names, mstates):
     return out
 
 
-def model_outcomes(spec, same, names, cs, k=2, cal=False):
+def model_outcomes(spec, same, names, cs, k=2):
     """For crash states cs: [(crash state classes, [(ok, regen started, {file: class})...], safe?)]."""
-    calls = [('crash.outcome', [cal, m_proj(spec), EDITS[spec['edit']], c, k]) for c in cs]
+    calls = [('crash.outcome', [list(VARIANT), m_proj(spec), EDITS[spec['edit']], c, k]) for c in cs]
     raw = common.model_batch(calls)
     out = []
     for r in raw:
         st0 = canon_state(spec, same, names, (r[0][0], r[0][1], r[0][2]))
+        aux = {'deps': AUX[r[0][3]], 'depstmp': AUX[r[0][4]]}
         atts = [(bool(a[0]), bool(a[1]), canon_state(spec, same, names, (a[2], a[3], a[4]))) for a in r[1]]
-        out.append((st0, atts, bool(r[2])))
+        out.append((st0, atts, bool(r[2]), aux))
     return calls, raw, out
 
 
@@ -462,7 +495,7 @@ def stage_trace(rep, specs):
             continue
         aops = [tuple(x) for x in o['aops']]
         traces[spec_key(spec)] = (aops, o)
-        call = ('crash.run_ops', [False, m_kind(spec), m_proj(spec)])
+        call = ('crash.run_ops', [list(VARIANT), m_kind(spec), m_proj(spec)])
         raw = common.model_batch([call])[0]
         calls.append(call); raws.append(raw)
         mops = [dec_op(r) for r in raw]
@@ -506,7 +539,7 @@ def stage_crash(rep, specs, traces, kinds, followups=2):
         if spec_key(spec) not in traces:
             continue
         aops, _ = traces[spec_key(spec)]
-        pts = [tuple(x) for x in spec['points']] if spec.get('points') else \
+        pts = corpus_points(spec, aops) if spec.get('points') else \
             [(n, k) for n in range(len(aops)) for k in kinds]
         jobs += [(spec, p) for p in split(pts, max(1, 14 // len(specs)))]
     res = pool_map(jobs)
@@ -542,8 +575,11 @@ def stage_crash(rep, specs, traces, kinds, followups=2):
         cs = [max(0, crash_state(r['n'], r['kind']) - shift) for r in rs]
         calls, raw, outs = model_outcomes(spec, tr['same'], tr['names'], cs, k=followups)
         calls_all += calls; raw_all += raw
-        for r, (st0, atts, safe) in zip(rs, outs):
+        for r, (st0, atts, safe, aux) in zip(rs, outs):
             real0 = r['after_fault']
+            # the depfile and its temporary file right after the fault (ties Open/WriteClose/Rename on them)
+            if r['after_fault_aux'] != aux:
+                dis.append(('crash.outcome/depfile', spec, (r['n'], r['kind']), r['after_fault_aux'], aux))
             real = [(a['rc'] == 0, bool(a['regen_ops']), a['state']) for a in r['attempts']]
             if real0 != st0 or real != atts:
                 dis.append(('crash.outcome', spec, (r['n'], r['kind']), (real0, real), (st0, atts)))
@@ -609,7 +645,7 @@ def stage_script_raise(rep, rng, thorough):
         # model: the mutations before the exception are a prefix of pre_ops and do not contain the build file
         shift = 1 if spec['runner'] == 'configure' else 0
         j = len(o['ops']) - shift
-        raw = common.model_batch([('crash.raise', [m_proj(spec), max(j, 0)])])[0]
+        raw = common.model_batch([('crash.raise', [list(VARIANT), m_proj(spec), max(j, 0)])])[0]
         mops = [dec_op(r) for r in raw[0]]
         if mops != [tuple(x) for x in o['ops'][shift:]] or STATE[raw[1]] != 'old':
             dis.append(('crash.raise', spec, o['ops'], mops))
@@ -654,6 +690,19 @@ def stage_r_make(rep):
     rep.stage('R:make_attempt', cases=2, disagreements=bad)
 
 
+def corpus_points(spec, aops):
+    """The listed points of a corpus entry were recorded against the mutation sequence of the old find.py (depfile written
+    in place).  With F2 the sequence has one more mutation (the rename onto .bfg_find_deps): later indices shift by one, and
+    both sides of the rename are added."""
+    pts = [tuple(x) for x in spec['points']]
+    r = [i for i, o in enumerate(aops) if o[0] == 'rename']
+    if not r:
+        return pts
+    r = r[0]
+    out = [(n if n < r else n + 1, k) for n, k in pts] + [(r, 'kill_before'), (r, 'kill_after')]
+    return sorted(set(out))
+
+
 def load_corpus():
     d = os.path.join(common.VERIF, 'corpus', 'C10')
     out = []
@@ -672,10 +721,45 @@ def load_own_findings(rep):
         rep.known += [k for k in json.load(open(p)) if k.get('status') == 'open' and k['id'] not in have]
 
 
+def select_variant(rep):
+    """Detects which find.py is under test, selects the model variant, and decides per variant which of the two repaired
+    findings may still count as known:
+      * a finding whose repair is present in the tree under test is never known (its class is a VIOLATION again);
+      * a finding whose repair is absent is known only while it is recorded as open, or - transitional - while its `fixed`
+        entry still says "commit": "PENDING" AND the tree shows neither repair (= /repo before the two fix commits land).
+        Once the commit hashes are filled in, or when only one of the two repairs is missing, the old behaviour is a
+        regression: VIOLATION with the crash point as replay."""
+    v = regenvariant.detect()
+    regenvariant.report(rep, v)
+    VARIANT[:] = [False, v['adeps'], v['dnc']]
+    p = os.path.join(common.VERIF, 'findings.d', 'C10.json')
+    own = {k['id']: k for k in json.load(open(p))} if os.path.exists(p) else {}
+    neither = not v['adeps'] and not v['dnc']
+    closed = []
+    for fid, present in ((regenvariant.F1_ID, v['dnc']), (regenvariant.F2_ID, v['adeps'])):
+        e = own.get(fid)
+        listed_open = any(k['id'] == fid for k in rep.known)
+        tolerated = (not present) and (
+            (e is None and listed_open) or (e is not None and e.get('status') == 'open') or
+            (e is not None and e.get('status') == 'fixed' and e.get('commit') == 'PENDING' and neither))
+        orig = [k for k in rep.known if k['id'] == fid]
+        rep.known = [k for k in rep.known if k['id'] != fid]
+        if tolerated:
+            k = dict(e) if e is not None else dict(orig[0])
+            k['status'] = 'open'
+            rep.known.append(k)
+        else:
+            closed.append(fid)
+    rep.stage('known-classes', model_variant={'cal': False, 'adeps': v['adeps'], 'dnc': v['dnc']},
+              counted_as_known=sorted(k['id'] for k in rep.known), violations_again=closed)
+    return v
+
+
 def run(rep):
     rng = random.Random(rep.seed)
     thorough = rep.tier == 'thorough'
     load_own_findings(rep)
+    select_variant(rep)
     rep.proof_stage(coqchk=thorough)
     fault_specs = gen_specs(rng, 16 if thorough else 3, fixed=QUICK_FIXED)
     have = [spec_key(x) for x in fault_specs]
@@ -701,6 +785,7 @@ def run(rep):
 def replay(rep, path):
     r = json.load(open(path))
     load_own_findings(rep)
+    select_variant(rep)
     if 'spec' not in r or 'n' not in r:
         print(json.dumps(r, indent=1)[:3000])
         return run(rep)
